@@ -5,12 +5,13 @@ PROPS["C15"] = dict(
                     require=["lm.prefetch", "lm.noprefetch", "lm.none", "store.memory", "cache.fs.memory", "cache.fs.dir", "cache.http.dir",
                              "cache.dir.sync", "cache.dir.async", "layout.minchunk", "layout.zstd", "cfg.pcs>cs",
                              "op.pf", "op.pf.fail", "op.pf.stall", "op.pf.concurrent", "op.rel", "op.wait", "op.wait.concurrent",
-                             "op.readprio", "op.readall", "op.bg", "op.bg.intf", "op.bg.concurrent", "op.off", "op.hold", "op.settle",
+                             "op.readprio", "op.readall", "op.readpart", "op.bg", "op.bg.intf", "op.bg.concurrent", "op.off", "op.hold", "op.settle",
+                             "level.fs", "level.layer", "op.mount", "op.mount.stall", "op.check", "result.check.ok", "result.check.err", "result.check.waited",
                              "result.pf.ok", "result.pf.err", "result.pf.stalled", "result.pf.requests", "result.pf.keys",
                              "result.wait.ok", "result.wait.timeout", "result.bg.ok", "files.prio", "files.multichunk"]),
                # the same harness (package verif/harness/prefetchx) linked with the bbolt metadata store of /repo/cmd as well
                dict(cmd="prefetchdb", mod="cmdmod", model="Model.Prefetch", quick=30, thorough=1500, shard=30, coq_jobs=8,
-                    require=["store.db", "lm.prefetch", "lm.noprefetch", "lm.none", "op.pf", "op.wait", "op.bg", "op.readprio", "op.readall",
+                    require=["store.db", "lm.prefetch", "lm.noprefetch", "lm.none", "op.pf", "op.wait", "op.bg", "op.readprio", "op.readall", "level.fs", "op.mount", "op.check",
                              "result.pf.ok", "result.pf.requests", "result.pf.keys", "result.bg.ok", "files.prio", "files.multichunk"])],
     rule="generated tars (1-7 regular files of 0-45 KB in up to 3 directory levels, implicit parents, a hardlink, a symlink) built with the real "
          "estargz.Build / estargz.Writer (chunk size 1000..1 MiB, min-chunk-size 0/500/3000/20000, gzip or zstd:chunked; prefetch landmark with a random "
@@ -19,7 +20,9 @@ PROPS["C15"] = dict(
          "over an in-memory registry with a request log; scripts of Prefetch (1-4 concurrent callers; registry failing from an offset, or stalled until "
          "released), WaitForPrefetchCompletion (1-4 concurrent, 40 ms timeout), BackgroundFetch (1-4 concurrent, failing registry, prioritized tasks "
          "arriving meanwhile), reads of the prioritized / all files (whole-file, 1-byte, 777, 4096, 30000-byte ReadAt), registry off/on, cache persistence "
-         "held back / settled; non-trivial = the prefetch body issued registry requests and the script has >= 3 op kinds; distinct = distinct Coq term",
+         "held back / settled; one third of the cases at filesystem level: the real fs.NewFilesystem + fs.Mount (everything but the FUSE server; prefetch-size label, "
+         "noprefetch / no_background_fetch, check_always; the spawned prefetch healthy, failing or parked) and the real fs.Check (unmounted, unknown mountpoint, "
+         "during the parked prefetch, after it, registry off); partial on-demand reads before prefetch / background fetch; landmark offset <= async threshold < configured size; non-trivial = the prefetch body issued registry requests and the script has >= 3 op kinds; distinct = distinct Coq term",
     assumptions=[
         "sync.Once, channel close/select, time.After, errgroup and singleflight behave as documented; the atomic steps of the waiter machine are the "
         "Once.Do entries, waiter.done() and the select outcomes, so a schedule is an op list; that a timer eventually fires is the Go runtime's",
